@@ -1,12 +1,16 @@
 package main
 
 import (
-	"io"
-	"log"
 	"flag"
 	"fmt"
+	"io"
+	"log"
 	"os"
+	"path/filepath"
+	"runtime/pprof"
 	"strconv"
+	"sync/atomic"
+	"time"
 
 	"github.com/go-logr/stdr"
 )
@@ -50,8 +54,45 @@ func main() {
 		os.Exit(2)
 	}
 	_ = replay
+	go watchdog(r, *out)
 	f(r)
 	os.Exit(r.Finish(*out))
+}
+
+// progress is bumped by every evaluated case; the watchdog turns a stall of the
+// whole harness (a call into the library that never returns) into a reported
+// violation with the goroutine dump as replay, instead of a hang.
+var progress atomic.Int64
+
+func watchdog(r *Run, out string) {
+	limit := 180 * time.Second
+	if s := os.Getenv("VERIF_STALL_SECONDS"); s != "" {
+		if v, err := strconv.Atoi(s); err == nil {
+			limit = time.Duration(v) * time.Second
+		}
+	}
+	last, since := progress.Load(), time.Now()
+	for {
+		time.Sleep(time.Second)
+		if p := progress.Load(); p != last {
+			last, since = p, time.Now()
+			continue
+		}
+		if time.Since(since) > limit {
+			dir := filepath.Join(verifDir(), "replays")
+			os.MkdirAll(dir, 0o755)
+			path := filepath.Join(dir, fmt.Sprintf("%s-stall-seed%d.txt", r.Prop, r.Seed))
+			if fh, err := os.Create(path); err == nil {
+				fmt.Fprintf(fh, "no case completed for %v (property %s tier %s seed %d); goroutines:\n\n", limit, r.Prop, r.Tier, r.Seed)
+				pprof.Lookup("goroutine").WriteTo(fh, 2)
+				fh.Close()
+			}
+			fmt.Printf("VIOLATION property=%s replay=%s\n  stream=stall why=no case completed for %v: a call into the library does not return\n", r.Prop, path, limit)
+			r.Violations++
+			r.Finish(out)
+			os.Exit(1)
+		}
+	}
 }
 
 func isFlagSet(name string) bool {
